@@ -1,0 +1,21 @@
+// Copyright (C) 2024, Ava Labs, Inc. All rights reserved.
+// See the file LICENSE for licensing terms.
+
+//go:build verif
+
+package fees
+
+import "github.com/ava-labs/hypersdk/internal/window"
+
+// VerifComputeNextPriceWindow exposes computeNextPriceWindow to the verification harness.
+func VerifComputeNextPriceWindow(
+	previous window.Window,
+	previousConsumed uint64,
+	previousPrice uint64,
+	target uint64,
+	changeDenom uint64,
+	minPrice uint64,
+	since uint64,
+) (uint64, window.Window) {
+	return computeNextPriceWindow(previous, previousConsumed, previousPrice, target, changeDenom, minPrice, since)
+}
